@@ -893,7 +893,8 @@ pub fn check(o: &CheckOpts) -> i32 {
                 b.name, i, seed_for(o.seed, stream, i), class.0, class.1, case.total_calls(), case.threads.len(), case.switches.len()
             );
             let orig_policy = rr.rec.get("pn").cloned().unwrap_or(Value::Null);
-            let budget = Duration::from_secs(t.min_budget_s);
+            // a case of tens of thousands of calls costs seconds per candidate: do not spend the budget on it
+            let budget = Duration::from_secs(if case.total_calls() > 20_000 { t.min_budget_s.min(15) } else { t.min_budget_s });
             let (mc, mr, ms) = minimise(case, rr, &mut oc, w, budget, 6000);
             // confirm: 5 fresh replays
             let reps: Vec<Case> = (0..5).map(|_| mc.clone()).collect();
